@@ -95,8 +95,8 @@ func (v ViewSpec) mapDoc(id string, body []byte, isJSON bool, x map[string]strin
 	var sync any
 	hasSync := false
 	if raw, ok := x["_sync"]; ok {
-		hasSync = true
 		_ = json.Unmarshal([]byte(raw), &sync)
+		hasSync = sync != nil // a JSON null xattr is presented to the map function as undefined
 	}
 	typ, hasType := field("type")
 	switch v.Guard {
@@ -701,6 +701,12 @@ func (r *Run) ViewStep(op Op) {
 	}
 	want := normRows(expectedViewRows(r, op.C, spec, *vo.Q))
 	got := normRows(gotRows(res))
+	if vo.Q.Limit > 0 {
+		// several rows of one document under one key have no defined order, so a limit may cut
+		// between them: with a limit only <key, id> is compared (values are checked by the
+		// queries without limit)
+		want, got = dropValues(want), dropValues(got)
+	}
 	tr.Prior = fmt.Sprintf("rows=%d", len(want))
 	if !rowsEqual(got, want) {
 		r.Devs = append(r.Devs, Deviation{Clause: "view.rows", Props: c12, Step: r.step,
@@ -720,7 +726,11 @@ func (r *Run) ViewStep(op Op) {
 		r.dev("view.fresh", c12, "fresh view failed: %v", ferr)
 		return
 	}
-	if f := normRows(gotRows(fres)); !rowsEqual(f, got) {
+	f := normRows(gotRows(fres))
+	if vo.Q.Limit > 0 {
+		f = dropValues(f)
+	}
+	if !rowsEqual(f, got) {
 		r.Devs = append(r.Devs, Deviation{Clause: "view.incremental", Props: c12, Step: r.step,
 			Msg: fmt.Sprintf("incrementally maintained view %s over %s returned %v but a freshly built identical view returns %v", spec.JS(), r.W.Cfg.Colls[op.C], got, f),
 			Sig: "view.incremental"})
@@ -789,4 +799,13 @@ func genViewQueryOp(rt *rapid.T, r *Run) (Op, bool) {
 	}
 	op.View = &ViewOp{DDoc: ref0.dd, Name: ref0.name, Q: &q}
 	return op, true
+}
+
+func dropValues(rows []string) []string {
+	out := make([]string, len(rows))
+	for i, r := range rows {
+		parts := strings.SplitN(r, "|", 3)
+		out[i] = parts[0] + "|" + parts[1]
+	}
+	return out
 }
